@@ -51,7 +51,19 @@ var solverSlots = func() chan struct{} {
 	return make(chan struct{}, n)
 }()
 
+// runSolver runs one solver on one file; a run that ends without a verdict and without a timeout
+// (killed for memory, fork failure under load) is repeated once after a pause.
 func runSolver(s solverSpec, file string, timeoutS int) (string, string, float64) {
+	st, text, el := runSolverOnce(s, file, timeoutS)
+	if st == "error" && !strings.Contains(text, "(error") {
+		time.Sleep(2 * time.Second)
+		st2, text2, el2 := runSolverOnce(s, file, timeoutS)
+		return st2, text2, el + el2
+	}
+	return st, text, el
+}
+
+func runSolverOnce(s solverSpec, file string, timeoutS int) (string, string, float64) {
 	solverSlots <- struct{}{}
 	defer func() { <-solverSlots }()
 	args := s.args(file, timeoutS)
